@@ -36,8 +36,8 @@ def register(m):
       "    rhs_approx = approx(rhs, rel=relative_tolerance, abs=absolute_tolerance)\n    return lhs == rhs_approx\n",
       "    expected = approx(rhs, rel=relative_tolerance, abs=absolute_tolerance)\n    verdict = lhs == expected\n    return verdict\n", "SILENT")
     m("C08", "rf-approx-re-before-im", AP,
-      "    im_condition = approx_equal_numbers(\n        float(im(lhs.scale_factor)),\n        float(im(rhs.scale_factor)),\n        relative_tolerance=relative_tolerance,\n        absolute_tolerance=absolute_tolerance,\n    )\n\n    return im_condition and approx_equal_numbers(\n        float(re(lhs.scale_factor)),\n        float(re(rhs.scale_factor)),\n        relative_tolerance=relative_tolerance,\n        absolute_tolerance=absolute_tolerance,\n    )\n",
-      "    re_condition = approx_equal_numbers(\n        float(re(lhs.scale_factor)),\n        float(re(rhs.scale_factor)),\n        relative_tolerance=relative_tolerance,\n        absolute_tolerance=absolute_tolerance,\n    )\n    if not re_condition:\n        return False\n\n    return approx_equal_numbers(\n        float(im(lhs.scale_factor)),\n        float(im(rhs.scale_factor)),\n        relative_tolerance=relative_tolerance,\n        absolute_tolerance=absolute_tolerance,\n    )\n",
+      "    im_condition = approx_equal_numbers(\n        float(im(lhs_value)),\n        float(im(rhs_value)),\n        relative_tolerance=relative_tolerance,\n        absolute_tolerance=absolute_tolerance,\n    )\n\n    return im_condition and approx_equal_numbers(\n        float(re(lhs_value)),\n        float(re(rhs_value)),\n        relative_tolerance=relative_tolerance,\n        absolute_tolerance=absolute_tolerance,\n    )\n",
+      "    re_condition = approx_equal_numbers(\n        float(re(lhs_value)),\n        float(re(rhs_value)),\n        relative_tolerance=relative_tolerance,\n        absolute_tolerance=absolute_tolerance,\n    )\n    if not re_condition:\n        return False\n\n    return approx_equal_numbers(\n        float(im(lhs_value)),\n        float(im(rhs_value)),\n        relative_tolerance=relative_tolerance,\n        absolute_tolerance=absolute_tolerance,\n    )\n",
       "SILENT")
     # C05/C06: _collect_terms with the any-dimension test folded into an if/else
     m("C05", "rf-collect-terms-if-else", CQ,
@@ -131,3 +131,31 @@ def register(m):  # noqa: F811 - second batch of behaviour-preserving refactors
     m("C18", "rf-latex-log-named-head", PL, "        log_str = f\"{head} \\\\left( {str_value} \\\\right)\"", "        body = f\"\\\\left( {str_value} \\\\right)\"\n        log_str = f\"{head} {body}\"", "SILENT")
     # C10: subtraction via add of scaled
     m("C10", "rf-magnitude-named-dot", AR, "", "", "SILENT") if False else None
+
+
+_prev2 = register
+
+
+def register(m):  # noqa: F811 - third batch: collectors, clones, oracle, id generator
+    _prev2(m)
+    # C05: handlers written differently but with the same meaning
+    m("C05", "rf-collect-pow-guard-first", CQ,
+      "    if is_any_dimension(exp_factor) or dimsys_SI.is_dimensionless(exp_dim):\n        return (base_factor**exp_factor, base_dim**exp_factor)\n\n    raise ValueError(f\"Dimension of '{expr.exp}' is {exp_dim}, but it should be dimensionless\")",
+      "    if not (is_any_dimension(exp_factor) or dimsys_SI.is_dimensionless(exp_dim)):\n        raise ValueError(f\"Dimension of '{expr.exp}' is {exp_dim}, but it should be dimensionless\")\n\n    return (base_factor**exp_factor, base_dim**exp_factor)", "SILENT")
+    m("C05", "rf-collect-abs-named-child", CQ,
+      "    arg_factor, arg_dim = collect_quantity_factor_and_dimension(expr.args[0])\n    return (Abs(arg_factor), arg_dim)",
+      "    child = expr.args[0]\n    arg_factor, arg_dim = collect_quantity_factor_and_dimension(child)\n    return (Abs(arg_factor), arg_dim)", "SILENT")
+    m("C05", "rf-collect-function-if-else", CQ,
+      "        if is_any_dimension(arg_factor) or dimsys_SI.is_dimensionless(arg_dim):\n            factors.append(arg_factor)\n            continue\n\n        raise ValueError(f\"Dimension of '{arg}' is {arg_dim}, but it should be dimensionless\")",
+      "        if not (is_any_dimension(arg_factor) or dimsys_SI.is_dimensionless(arg_dim)):\n            raise ValueError(f\"Dimension of '{arg}' is {arg_dim}, but it should be dimensionless\")\n\n        factors.append(arg_factor)", "SILENT")
+    m("C05", "rf-collect-terms-else-branch", CQ,
+      "        if dim is None:\n            dim = arg_dim\n            continue\n\n        if not dimsys_SI.equivalent_dims(dim, arg_dim):\n            raise ValueError(f\"Dimension of '{arg}' is {arg_dim}, but it should be {dim}\")",
+      "        if dim is None:\n            dim = arg_dim\n        elif not dimsys_SI.equivalent_dims(dim, arg_dim):\n            raise ValueError(f\"Dimension of '{arg}' is {arg_dim}, but it should be {dim}\")", "SILENT")
+    m("C05", "rf-dispatch-named-handler", CQ,
+      "    for type_, collector in _cases.items():\n        if isinstance(expr, type_):\n            return collector(expr)",
+      "    for type_, collector in _cases.items():\n        if not isinstance(expr, type_):\n            continue\n        return collector(expr)", "SILENT")
+    m("C05", "rf-mul-explicit-product", CQ, "    factor *= arg_factor\n", "    factor = factor * arg_factor\n", "SILENT")
+    # C03/C09: next_id variants
+    m("C09", "rf-next-id-if-else", IDG, "    id_val = _ids.get(base)\n    id_val = 1 if id_val is None else id_val + 1\n    _ids[base] = id_val\n    return id_val",
+      "    if base in _ids:\n        id_val = _ids[base] + 1\n    else:\n        id_val = 1\n    _ids[base] = id_val\n    return id_val", "SILENT")
+    # C08: assert_equal wiring
